@@ -47,7 +47,7 @@ pub fn check_enc(drv: &mut Driver, ev: &mut Ev, case: &EncCase, enumerated: bool
     let b = drv.run_enc(&manual, ev);
     if tr { println!("TRACE {} | replacing calls: {} bytes={} | manual calls: {} items=[{}]", case.describe(), fmt_calls(&a.calls), hex(&a.bytes), fmt_calls(&b.calls), fmt_eitems(&b.items)); }
     ev.count("replacement-diff.encode-histories");
-    let key = |k: &str| format!("encode:{}:{}:{}", case.enc.output_encoding().name(), if case.src16 { "utf16" } else { "utf8" }, k);
+    let key = |k: &str| format!("encode:{}:{}:{}", crate::c01::ofam(case.enc), if case.src16 { "utf16" } else { "utf8" }, k);
     if a.fail_of(&[FailKind::Panic, FailKind::Stuck]).is_some() || b.fail_of(&[FailKind::Panic, FailKind::Stuck]).is_some() { ev.count("replacement-diff.aborted(panic/stuck: C06/C08)"); return; }
     // expected bytes and NCR start offsets
     let mut exp: Vec<u8> = vec![]; let mut ncr_starts: Vec<usize> = vec![];
@@ -62,7 +62,7 @@ pub fn check_enc(drv: &mut Driver, ev: &mut Ev, case: &EncCase, enumerated: bool
         if c.had != exp_had { ev.violation("replacement-diff", &key(if c.had { "had_unmappables-true-without-substitution" } else { "had_unmappables-false-with-substitution" }), format!("call {} returned had_unmappables={} but its output bytes [{}, {}) {} a numeric character reference | {} | calls: {}", ci, c.had, start, end, if exp_had { "contain" } else { "do not contain" }, case.describe(), fmt_calls(&a.calls))); break; }
         start = end;
     }
-    ev.state(H::new().s(case.enc.output_encoding().name()).u(ncr_starts.len().min(3) as u64).u(case.src16 as u64).u(5).get(), || format!("encode {} src16={} unmappables={}", case.enc.output_encoding().name(), case.src16, ncr_starts.len().min(3)));
+    ev.state(H::new().s(crate::c01::ofam(case.enc)).u(ncr_starts.len().min(3) as u64).u(case.src16 as u64).u(5).get(), || format!("encode {} src16={} unmappables={}", crate::c01::ofam(case.enc), case.src16, ncr_starts.len().min(3)));
 }
 
 pub fn run(ctx: &Ctx, ev: &mut Ev) {
